@@ -149,6 +149,12 @@ func genCase(t *rapid.T) Case {
 			c.Validity = 0
 		}
 	}
+	if id.Key >= 0 && c.Validity == 0 && gen.Chance(t, "bigcert", 1, 12) {
+		// a signing certificate large enough that the SignedData containing it passes 64 KiB (three-octet DER lengths)
+		if bid, err := gen.WithBigExtension(id, rapid.SampledFrom([]int{65000, 65536, 70000, 140000}).Draw(t, "bigext")); err == nil {
+			id = bid
+		}
+	}
 	c.Key, c.Cert = id.Key, id.Cert.Raw
 	if rapid.IntRange(0, 3).Draw(t, "utc") != 0 {
 		c.TZMin = 15 * rapid.IntRange(-48, 56).Draw(t, "tzquarters")
@@ -225,6 +231,9 @@ func checkCase(c Case) error {
 	defer func() { validityOutside = false }()
 	if c.Validity != 0 {
 		hx.Class("signing_certificate_expired_or_not_yet_valid")
+	}
+	if len(c.Cert) >= 60000 {
+		hx.Class("signing_certificate_of_64KiB_or_more")
 	}
 	id, err := gen.ParseIdent(c.Key, c.Cert)
 	if err != nil {
